@@ -44,6 +44,8 @@ def _helper_threads(pool, settle=1.5):
             return n
         time.sleep(0.05)
 
+SCALE = float(os.environ.get('VERIF_TIME_SCALE', '1'))
+
 
 def _bounded(fn, bound):
     done = []
@@ -136,8 +138,8 @@ def terminate(sc):
             for _ in range(20):
                 pool.handle_result_event()
     nworkers = len(seen)
-    ok, secs = _bounded(pool.terminate, 15)
-    ok2, _ = _bounded(pool.terminate, 5) if ok else (False, 0)
+    ok, secs = _bounded(pool.terminate, 15 * SCALE)
+    ok2, _ = _bounded(pool.terminate, 5 * SCALE) if ok else (False, 0)
     intact = all(h.ready() and h.get(0) == ('ok', i) for i, h in enumerate(early))
     time.sleep(0.3)
     exits = 0
@@ -162,7 +164,7 @@ def gc_path():
     h.wait(10)
     del pool
     gc.collect()
-    ok, secs = _bounded(keep.terminate, 15)
+    ok, secs = _bounded(keep.terminate, 15 * SCALE)
     time.sleep(0.3)
     return {'kind': 'terminate', 'returned': ok, 'secs10': int(secs * 10), 'again_ok': True,
             'alive': _alive(seen), 'threads': _helper_threads(keep) if ok else -1,
